@@ -268,6 +268,11 @@ def run_impl(case, tape=None, rng=None, full=None, keep_obj=False):
     out["tape"] = tr.log
     out["trace"] = sims.enc_trace(tr.trace, idx)
     out["lab_index"] = {i: idx[lab(i)] for i in range(case["n"])}
+    if case.get("init", {}).get("kind") == "list":
+        objs = [lab(i) for i in case["init"]["nodes"]]
+        if case.get("container") == "set":
+            objs = list(set(objs))          # the order in which the simulator iterates the set
+        out["init_order"] = [idx[x] for x in objs]
     return out, G, idx
 
 
@@ -277,7 +282,7 @@ def requested_init(case, out):
     li = out["lab_index"]
     init = case["init"]
     if init["kind"] == "list":
-        infs = [li[i] for i in init["nodes"]]
+        infs = out.get("init_order") or [li[i] for i in init["nodes"]]
     elif init["kind"] == "single":
         infs = [li[init["node"]]]
     else:
